@@ -28,6 +28,11 @@ type ExServer struct {
 	// StallAt: the server goes silent instead of sending reply N (1 = ResPQ,
 	// 2 = Server_DH_Params, 3 = dh_gen). 0 = never.
 	StallAt int
+	// PauseAt: reply N is held until Resume is closed; Paused is closed when the
+	// server gets there.
+	PauseAt int
+	Paused  chan struct{}
+	Resume  chan struct{}
 	// ClaimFingerprints overrides the fingerprints announced in ResPQ.
 	ClaimFingerprints []int64
 	// Stale404 transport error frames (-404, "auth key not found") are sent right
@@ -169,6 +174,13 @@ func (s *ExServer) writeMsg(data []byte) error {
 func (s *ExServer) reply(n int, data []byte) (stalled bool, err error) {
 	if s.StallAt == n {
 		return true, nil
+	}
+	if s.PauseAt == n && s.Resume != nil {
+		// the answer is ready but held until the test lets it go
+		if s.Paused != nil {
+			close(s.Paused)
+		}
+		<-s.Resume
 	}
 	if s.Mut == "replay-previous-run" && len(s.Replay) >= n {
 		data = s.Replay[n-1]
